@@ -38,8 +38,9 @@ type Cube struct {
 	PreCanc  bool    // context may already be cancelled before the call
 	Timer    bool    // a timer may cancel the context at any step
 	Ticks    int
-	K        int // steps (0 = default)
-	Mid      int // number of jobs enqueued only after an explicit pause marker (unused)
+	K        int  // steps (0 = default)
+	Race     bool `json:",omitempty"` // weave the happens-before monitor (C12)
+	Mid      int  // number of jobs enqueued only after an explicit pause marker (unused)
 }
 
 func (c *Cube) J() int { return len(c.Deps) }
@@ -75,6 +76,7 @@ func verifNdCtx() context.Context
 func verifNdJob(k int) func(context.Context) error
 func verifNdReturned(err error)
 func verifNdSubmitted(hasDeps bool)
+func verifNdEnqueueing(k int)
 func verifNdEmit(pending, ready, waiting, idle, conc int)
 
 type verifEmitter struct{}
@@ -110,7 +112,7 @@ func (verifEmitter) Emit(s State) {
 				}
 				deps = fmt.Sprintf(", Dependencies: []*ScheduledJob{%s}", strings.Join(ds, ", "))
 			}
-			fmt.Fprintf(&sb, "\t%ss.Enqueue(ctx, Job{Run: verifNdJob(%d)%s})\n\tverifNdSubmitted(%v)\n", lhs, k, deps, len(d) > 0)
+			fmt.Fprintf(&sb, "\tverifNdEnqueueing(%d)\n\t%ss.Enqueue(ctx, Job{Run: verifNdJob(%d)%s})\n\tverifNdSubmitted(%v)\n", k, lhs, k, deps, len(d) > 0)
 		}
 		sb.WriteString("\terr := s.Wait(ctx)\n\tverifNdReturned(err)\n}\n\n")
 	}
@@ -184,6 +186,9 @@ func NewL1(P *Program, c *Cube) *L1 {
 		l.timerArmed = B.Var("timer_armed", 0)
 	}
 	e.InitPkgs[SchedPkg] = true
+	if c.Race {
+		e.Race = NewRaceMon(e, 4+l.effN()*(1+c.MaxGoex))
+	}
 	e.DebugTypes = true
 	e.PoolBound = func(fn *ssa.Function, instr ssa.Instruction) int {
 		name := fn.String()
@@ -262,7 +267,22 @@ func (l *L1) installIntrinsics() {
 		p.Store(e, l.submittedDeps, sd)
 		ic.Return(e, p, Value{})
 	}
+	I[pfx+"verifNdEnqueueing"] = func(e *Engine, p *Path, ic *ICall) {
+		if e.Race != nil {
+			e.Race.Snapshot(p, p.Cur.Pid, fmt.Sprintf("enq%d", ic.Args[0][0].Val))
+		}
+		ic.Return(e, p, Value{})
+	}
 	I[pfx+"verifNdReturned"] = func(e *Engine, p *Path, ic *ICall) {
+		if e.Race != nil {
+			// K6: every body's end happens-before a nil return of Wait
+			isNil := B.Eq(ic.Args[0][0], B.BV(16, 0))
+			bad := B.False
+			for k := range l.started {
+				bad = B.Or(bad, B.And(p.Load(e, l.ended[k]), B.Not(e.Race.Leq(p, fmt.Sprintf("end%d", k), p.Cur.Pid))))
+			}
+			e.RaiseFlag(p, "C12hb", B.And(isNil, bad))
+		}
 		p.Store(e, l.returned, B.True)
 		p.Store(e, l.retErr, ic.Args[0][0])
 		p.Store(e, l.retErr+1, ic.Args[0][1])
@@ -298,6 +318,9 @@ func (l *L1) installIntrinsics() {
 		}
 		return []variant{{what: "ctx.Err", en: B.True, extra: B.True, apply: func(q *Path) {
 			done := l.ctxDone(q)
+			if e.Race != nil {
+				e.Race.Acquire(q, q.Cur.Pid, fmt.Sprintf("close%d", l.ctxChan.Base), done)
+			}
 			e.finish(q.Cur.top(), in, e.iteVal(done, opaqueErr(B, errDataCanceled), nilIface(B)))
 		}}}
 	}
@@ -312,6 +335,14 @@ func (l *L1) installIntrinsics() {
 			e.RaiseFlag(p, "C09start", l.ctxDone(p))
 			// the job must be handed the context it was enqueued with
 			e.RaiseFlag(p, "C09ctx", B.Not(e.valEq(ic.Args[0], Value{B.BV(16, TagCtx), B.BV(64, uint64(l.ctxChan.Base))})))
+			if e.Race != nil {
+				// K6: the Enqueue call and the end of every dependency's body happen-before the body's start
+				hb := e.Race.Leq(p, fmt.Sprintf("enq%d", k), p.Cur.Pid)
+				for _, d := range c.Deps[k] {
+					hb = B.And(hb, e.Race.Leq(p, fmt.Sprintf("end%d", d), p.Cur.Pid))
+				}
+				e.RaiseFlag(p, "C12hb", B.Not(hb))
+			}
 			p.Store(e, l.started[k], B.True)
 			r := B.Add(p.Load(e, l.running), B.BV(8, 1))
 			e.RaiseFlag(p, "C03", B.Ult(B.BV(8, uint64(l.effN())), r))
@@ -322,6 +353,10 @@ func (l *L1) installIntrinsics() {
 			k := st.K
 			out := l.Out[k]
 			common := func(q *Path) {
+				if e.Race != nil && q.Cur != nil {
+					e.Race.Snapshot(q, q.Cur.Pid, fmt.Sprintf("end%d", k))
+					e.Race.tick(q, q.Cur.Pid)
+				}
 				q.Store(e, l.ended[k], B.True)
 				q.Store(e, l.running, B.Sub(q.Load(e, l.running), B.BV(8, 1)))
 			}
@@ -350,6 +385,9 @@ func (l *L1) installIntrinsics() {
 				case OutCancel:
 					vs = append(vs, StubVariant{What: "cancel", En: B.Eq(out, B.BV(8, OutCancel)), Apply: func(e *Engine, q *Path, ic *ICall) {
 						common(q)
+						if e.Race != nil {
+							e.Race.ReleaseJoin(q, q.Cur.Pid, fmt.Sprintf("close%d", l.ctxChan.Base))
+						}
 						q.Store(e, l.ctxChan.Base, B.True)
 						q.Store(e, l.endedOK[k], B.True)
 						ic.Return(e, q, nilIface(B))
@@ -721,6 +759,10 @@ func (l *L1) Obligations() []Obligation {
 		add("C08", "error decomposition = exactly the failed jobs, no sentinel", l.flag("C08err"))
 		add("C08", "unknown error component", l.flag("C08ctx"))
 	}
+	if c.Race {
+		add("C12", "data race: two conflicting accesses to scheduler memory not ordered by happens-before", l.flag("C12"))
+		add("C12", "happens-before guarantee missing: Enqueue -> body start, dependency's end -> dependent's start, body end -> nil return of Wait", l.flag("C12hb"))
+	}
 	add("C09", "job body started although its context was done", l.flag("C09start"))
 	add("C09", "job body received a context other than the one it was enqueued with", l.flag("C09ctx"))
 	add("C09", "nil result although context cancelled", l.flag("C09ret"))
@@ -738,7 +780,12 @@ func (l *L1) Obligations() []Obligation {
 	for k := range l.Out {
 		allStarted = B.And(allStarted, s.Load(l.started[k]))
 	}
-	wit("C01", "witness: every job ran and the caller returned", B.And(allStarted, returned))
+	if len(c.PerJob) == 0 && has(c.Outcomes, OutOK) {
+		wit("C01", "witness: every job ran and the caller returned", B.And(allStarted, returned))
+	} else {
+		// cubes with forced failures: not every job can run
+		wit("C01", "witness: the first job ran and the caller returned", B.And(s.Load(l.started[0]), returned))
+	}
 	return obs
 }
 
